@@ -34,6 +34,15 @@ Theorem C08_scans_exact : forall W scan_out reqs, NoDup (fst <$> reqs) -> forall
   scan_list n ≡ₚ good_list reqs.
 Proof. exact engine_scans_exact. Qed.
 
+(* ... and the error records: once completion is signalled and the error stream is drained, the ids logged by the
+   error drain are a permutation of the requests that carried an error or whose probe failed -- each once *)
+Theorem C08_errors_exact : forall W scan_out reqs, NoDup (fst <$> reqs) -> forall cap n,
+  0 < W -> reachable (beh W scan_out) (init W cap reqs) n -> cancelled n = false -> chan_closed n c_done ->
+  (forall ch, chans n !! c_errc = Some ch -> cbuf ch = []) ->
+  (forall j l, procs n !! j = Some l -> role_of l = RDrain -> weight l = ∅) ->
+  errlog_list n ≡ₚ failed_list scan_out reqs.
+Proof. exact engine_errors_exact. Qed.
+
 (* results and errors agree with the fate of their request: a result is printed only for a target
    whose probe detected a service, an error is logged only for a failed request or probe *)
 Theorem C08_fates : forall W scan_out reqs cap n,
@@ -94,6 +103,7 @@ Print Assumptions C08_conservation.
 Print Assumptions C08_probe_at_most_once.
 Print Assumptions C08_probe_once.
 Print Assumptions C08_scans_exact.
+Print Assumptions C08_errors_exact.
 Print Assumptions C08_fates.
 Print Assumptions C08_printed_if_drained.
 Print Assumptions C08_errors_once.
